@@ -91,7 +91,9 @@ def rand_statement(rng, kind=None):
         db = ''.join(rng.choice('(.)+') for _ in range(rng.randint(1, 8)))
         return ['strand-complex', rand_ident(rng), doms, db], {'kw': 'complex' if kind == 'sc1' else 'structure', 'as': [a(), a()],
                                                                 'plus': [rng.random() < 0.3 for _ in range(n + 1)],
-                                                                'nl': [rng.random() < 0.5, rng.random() < 0.5]}
+                                                                'nl': [rng.random() < 0.5, rng.random() < 0.5],
+                                                                # the line breaks INSIDE a three-line `complex` statement come in either style too
+                                                                'eol': rng.choice(['\n', '\n', '\r\n'])}
     if kind == 'rxn':
         info = []
         if rng.random() < 0.8:
@@ -176,8 +178,8 @@ def render_statement(tree, spec, L):
         return s
     if k == 'strand-complex':
         if spec['kw'] == 'complex':
-            nl1 = '\n' if spec['nl'][0] else L.need()
-            nl2 = '\n' if spec['nl'][1] else L.need()
+            nl1 = spec.get('eol', '\n') if spec['nl'][0] else L.need()
+            nl2 = spec.get('eol', '\n') if spec['nl'][1] else L.need()
             return 'complex' + L.need() + tree[1] + L.opt() + spec['as'][0] + (L.tight() + nl1 if spec['nl'][0] else L.opt()) + \
                 L.need().join(tree[2]) + (L.tight() + nl2 if spec['nl'][1] else L.need()) + spread(tree[3], L)
         parts = []
